@@ -403,4 +403,71 @@ theorem C20_broadcast_posix_untouched (c : Cfg) (r : RawAddr) :
     (netIfAddrsEntry c false r).bcast = r.bcast := by
   simp [netIfAddrsEntry]
 
+/-! ## 5. The other platform-conditional branches of the front end -/
+
+/-- **C20_front_branches_classified.** Every `if` / conditional expression inside a function or
+    class body of `psutil/__init__.py` whose test names a platform constant (translator fact,
+    source order, with its test text) is on the hand-classified list — modelled, part of
+    `net_if_addrs`, API surface, Linux-only, no value transformed, or explicitly not modelled —
+    and the list has nothing else: a new or altered platform branch is noticed. -/
+theorem C20_front_branches_classified :
+    Gen.C20.frontBranches = Spec.frontBranches.map (fun x => (x.1, x.2.1)) := by decide +kernel
+
+/-- **C20_front_ppid.** `Process.ppid()`: the current parent on POSIX; on Windows the first answer
+    is cached and returned from then on (a cached value is a PID > 0). -/
+theorem C20_front_ppid (posix : Bool) (cached : Option Nat) (native : Nat) (h : ∀ c, cached = some c → c ≠ 0) :
+    (frontPpid posix cached native).1 = Spec.ppidExpected posix cached native ∧
+    (posix = false → (frontPpid posix cached native).2 = some (Spec.ppidExpected posix cached native)) := by
+  cases posix <;> cases cached <;> simp_all [frontPpid, Spec.ppidExpected]
+
+/-- **C20_front_name.** `Process.name()`: cached on Windows; on POSIX a truncated name (≥ 15 bytes)
+    is completed from `cmdline()[0]` when that begins with it, and AccessDenied / ZombieProcess
+    of `cmdline()` leave the truncated name; otherwise the platform layer's name. -/
+theorem C20_front_name (windows posix : Bool) (cached : Option String) (native : String) :
+    (∀ argv, frontName windows posix cached native (.ok argv) = Spec.nameExpected windows posix cached native (some argv)) ∧
+    frontName windows posix cached native .swallowed = Spec.nameExpected windows posix cached native none := by
+  constructor
+  · intro argv
+    cases windows <;> cases cached <;> cases argv <;> cases posix <;>
+      simp [frontName, Spec.nameExpected, posixBasename] <;>
+      (by_cases hl : 15 ≤ native.length <;> simp [hl] <;> omega)
+  · cases windows <;> cases cached <;> simp [frontName, Spec.nameExpected]
+
+example : frontName true false (some "a.exe") "b.exe" (.ok []) = "a.exe" ∧
+    frontName false true (some "old") "new" .swallowed = "new" := by decide
+
+/-- **C20_front_username.** POSIX: the passwd name of the *real* uid, the uid in decimal when the
+    system cannot resolve it; Windows: the platform layer's `DOMAIN\\user`. -/
+theorem C20_front_username (posix : Bool) (uid : Nat) (pw : Option String) (native : String) :
+    frontUsername posix uid pw native = Spec.usernameExpected posix uid pw native := by
+  cases posix <;> cases pw <;> rfl
+
+/-- **C20_front_pid_exists.** Negative → False; PID 0 on POSIX exists iff `pids()` lists it (it is
+    never probed with `kill`); everything else is the platform layer's answer. -/
+theorem C20_front_pid_exists (posix : Bool) (pid : Int) (pids : List Nat) (native : Bool) :
+    frontPidExists posix pid pids native = Spec.pidExistsExpected posix pid pids native := by
+  unfold frontPidExists Spec.pidExistsExpected
+  by_cases h : pid < 0
+  · simp [h]
+  · cases posix <;> by_cases h0 : pid = 0 <;> simp [h, h0]
+
+/-- **C20_front_affinity_all_cpus.** Off Linux `cpu_affinity([])` asks for exactly the CPUs
+    `0 … n-1` that `cpu_times(percpu=True)` reports; a non-empty request is handed on as a set. -/
+theorem C20_front_affinity_all_cpus (ncpu : Nat) (cpus : List Nat) :
+    frontAffinityArg false ncpu [] = List.range ncpu ∧
+    (cpus ≠ [] → ∀ x, x ∈ frontAffinityArg false ncpu cpus ↔ x ∈ cpus) := by
+  constructor
+  · simp [frontAffinityArg]
+  · intro h x
+    cases cpus with
+    | nil => exact absurd rfl h
+    | cons a as => simp [frontAffinityArg, List.mem_eraseDups]
+
+/-- **C20_front_disk_io_kwargs.** Only Linux's platform function is given `perdisk`; every other
+    platform's is called without arguments, and the two forms keep separate nowrap histories. -/
+theorem C20_front_disk_io_kwargs (perdisk : Bool) :
+    frontDiskKwargs false perdisk = [] ∧ frontDiskKwargs true perdisk = [("perdisk", perdisk)] ∧
+    frontDiskCacheName true ≠ frontDiskCacheName false := by
+  refine ⟨rfl, rfl, by decide⟩
+
 end Psutil.C20
